@@ -454,15 +454,12 @@ func c04Scenario(r *kit.Run, idx int64, rng *rand.Rand) {
 			for _, i := range order {
 				d := make(chan struct{})
 				go func() { _ = out.its[i].Close(); _ = out.its[i].Close(); close(d) }()
-				if !kit.WaitUntil(c04Watchdog/4, func() bool {
-					select {
-					case <-d:
-						return true
-					default:
-						return false
+				if met, q, cs := kit.Await(c04Watchdog/4, c04Watchdog, func() bool { return isClosed(d) }); !met {
+					if q {
+						note("close-blocks", fmt.Sprintf("Close() of output %d does not return; at quiescence: %v", i, cs.Describe()))
+					} else {
+						inconclusive = "Close() not returned, not quiescent"
 					}
-				}) {
-					note("close-blocks", fmt.Sprintf("Close() of output %d did not return", i))
 				}
 			}
 		}
@@ -473,8 +470,12 @@ func c04Scenario(r *kit.Run, idx int64, rng *rand.Rand) {
 				for range out.ch {
 				}
 			case out.done != nil:
-				if !kit.WaitUntil(c04Watchdog/4, func() bool { return len(out.done) == 1 }) {
-					note("no-termination", "ProcessParallel over a finite input did not return")
+				if met, q, cs := kit.Await(c04Watchdog/4, c04Watchdog, func() bool { return len(out.done) == 1 }); !met {
+					if q {
+						note("no-termination", fmt.Sprintf("ProcessParallel over a finite input does not return; at quiescence: %v", cs.Describe()))
+					} else {
+						inconclusive = "ProcessParallel not returned, not quiescent"
+					}
 				} else if err := <-out.done; err != nil {
 					note("unexpected-error", fmt.Sprintf("ProcessParallel returned %v", err))
 				}
@@ -496,15 +497,8 @@ func c04Scenario(r *kit.Run, idx int64, rng *rand.Rand) {
 				}
 				d := make(chan struct{})
 				go func() { wg.Wait(); close(d) }()
-				if !kit.WaitUntil(c04Watchdog/4, func() bool {
-					select {
-					case <-d:
-						return true
-					default:
-						return false
-					}
-				}) {
-					if cs, q := kit.Quiesce(c04Watchdog); q {
+				if met, q, cs := kit.Await(c04Watchdog/4, c04Watchdog, func() bool { return isClosed(d) }); !met {
+					if q {
 						note("no-termination", fmt.Sprintf("a finite input never led to io.EOF; at quiescence: %v", cs.Describe()))
 					} else {
 						inconclusive = "exhausting consumer did not finish, not quiescent"
@@ -538,15 +532,12 @@ func c04Scenario(r *kit.Run, idx int64, rng *rand.Rand) {
 			}
 			d := make(chan struct{})
 			go func() { wg.Wait(); close(d) }()
-			if !kit.WaitUntil(c04Watchdog/4, func() bool {
-				select {
-				case <-d:
-					return true
-				default:
-					return false
+			if met, q, cs := kit.Await(c04Watchdog/4, c04Watchdog, func() bool { return isClosed(d) }); !met {
+				if q {
+					note("close-blocks", fmt.Sprintf("two concurrent Close() calls do not both return; at quiescence: %v", cs.Describe()))
+				} else {
+					inconclusive = "concurrent Close not returned, not quiescent"
 				}
-			}) {
-				note("close-blocks", "two concurrent Close() calls did not both return")
 			}
 		case "close-while-parked", "cancel-while-parked":
 			// the consumer parks in ReadOne on a source that never ends;
@@ -574,8 +565,8 @@ func c04Scenario(r *kit.Run, idx int64, rng *rand.Rand) {
 			} else {
 				cancel()
 			}
-			if !kit.WaitUntil(c04Watchdog/4, func() bool { return len(ret) == 1 }) {
-				if cs, q := kit.Quiesce(c04Watchdog); q {
+			if met, q, cs := kit.Await(c04Watchdog/4, c04Watchdog, func() bool { return len(ret) == 1 }); !met {
+				if q {
 					note("consumer-stuck", fmt.Sprintf("the consumer blocked in ReadOne did not return after %s; at quiescence: %v", c.Stop, cs.Describe()))
 				} else {
 					inconclusive = "parked consumer not released, not quiescent"
